@@ -22,6 +22,10 @@ type verifScriptLease struct {
 	maxRenews         int
 	lastOutcome       int
 	contAfterFail     []time.Duration // (now - renewedAt) observed each time the loop went on after a failed renewal
+
+	demoteDuring      *Store // when set: an operator demotes the node while this renewal is in flight
+	demotedAt         int    // renewal round during which the demotion was requested (0: none)
+	renewsAfterDemote int
 }
 
 func (l *verifScriptLease) ID() string           { return l.id }
@@ -34,6 +38,13 @@ func (l *verifScriptLease) Renew(ctx context.Context) error {
 	}
 	if l.expired {
 		l.renewAfterExpired++
+	}
+	if l.demotedAt != 0 {
+		l.renewsAfterDemote++
+	}
+	if l.demoteDuring != nil && l.demotedAt == 0 && rt.Bool("demote.during.this.renewal") {
+		l.demoteDuring.Demote() // arrives while the loop is not waiting in its select
+		l.demotedAt = l.renews
 	}
 	rt.ClockAdvance(rt.I64("renew.latency") & 0x3fffffff) // the call itself takes up to ~1 s
 	switch rt.Choose("renew.outcome", 3) {
@@ -148,9 +159,12 @@ func VerifC08Primary() {
 	if handoffTo != 0 {
 		lease.handoffCh <- handoffTo
 	}
-	if rt.Choose("demote.requested", 2) == 1 {
+	switch rt.Choose("demote.requested", 3) {
+	case 1:
 		s.Demote()
 		close(s.demoteCh) // a demotion requested while primary
+	case 2:
+		lease.demoteDuring = s // a demotion requested while a renewal is in flight
 	}
 	rounds := 2 + rt.Tier()
 	ctx := rt.NewEnvCtx(rounds)
@@ -185,6 +199,11 @@ func VerifC08Primary() {
 		rt.Reach("c08.handoff")
 	} else {
 		rt.Check(lease.closes == 1, "the lease is destroyed exactly once when the node stops being primary (unless handed off)")
+	}
+	// a manual demotion is honoured whenever it arrives: at the latest the loop's next wait notices it
+	if lease.demotedAt != 0 {
+		rt.Check(lease.renewsAfterDemote == 0, "after a manual demotion no further renewal round is started: the node steps down")
+		rt.Reach("c08.demoted.during.renewal")
 	}
 	// P2: a renewal that reports the lease gone ends the primary role at once
 	rt.Check(lease.renewAfterExpired == 0, "no further renewal round after the service reported the lease expired")
